@@ -21,6 +21,8 @@ CONSTANTS
   WFItems <- %(wfset)s
   Addrs <- %(addrset)s
   Zoned <- MCZoned
+  Others <- %(others)s
+  ValidOthers <- MCOthersValid
   Member <- MCMemberAll
   Schemes <- %(schemes)s
   KnownSchemes <- MCKnown
@@ -35,15 +37,16 @@ CONSTANTS
 CHECK_DEADLOCK FALSE
 """
 INV = ("INVARIANTS TypeOK GateSafe DeniedUntouched ForwardedOnce OutcomeSound NoSpuriousDeny SomeOutcome "
-       "NeverWidens AllowOnlyInside DenyRejectsInside UnknownSchemeRejects ChainPositionFree")
+       "NeverWidens AllowOnlyInside DenyRejectsInside UnknownSchemeRejects ChainPositionFree OtherOptionNeverWidens")
 ACTIONS = ["ChooseRules", "ChooseReq", "Lookup", "AccessPass", "AccessDeny", "AuthPass", "AuthDeny", "Forward"]
 
 
-def cfg(spec, items, xff, auth=True, protos="MCBoth", inv=False, chain=None, nest=False):
+def cfg(spec, items, xff, auth=True, protos="MCBoth", inv=False, chain=None, nest=False, others=False):
     pres, sufs, fills = chain or ("MCPresNone", "MCSufsNone", "MCFillsOne")
     if nest:
         fills = "MCFillsNest"
     return CFG % dict(spec=spec, items=items, xff=xff, protos=protos, pres=pres, sufs=sufs, fills=fills,
+                      others="MCOthersAll" if others else "MCOthersNone",
                       itemset="MCItemsNest" if nest else "MCItems", wfset="MCWFItemsNest" if nest else "MCWFItems",
                       addrset="MCAddrsNest" if nest else "MCAddrs",
                       schemes="MCSchemes" if auth else "MCNoAuthSchemes",
@@ -96,9 +99,31 @@ def run_sub(ctx, sub, cases, what, timeout=600):
     return r
 
 
-def mc(ctx, what, items, xff, auth, timeout, coverage=False, chain=None, protos="MCBoth", nest=False):
-    r = ctx.tlc("Access_MC", cfg_text=cfg("Spec", items, xff, auth=auth, inv=True, chain=chain, protos=protos, nest=nest), workers=8,
-                timeout=timeout, coverage=coverage)
+import threading
+_settle = threading.RLock()   # TLC runs go on in parallel threads; their results are logged / accounted one at a time
+
+
+def locked(fn):
+    def wrapped(*a, **kw):
+        return fn(*a, **kw)
+    return wrapped
+
+
+def par(ctx, thunks, width=4):
+    """run independent TLC steps (functions returning True when the run may go on) several at a time"""
+    from concurrent.futures import ThreadPoolExecutor
+    with ThreadPoolExecutor(max_workers=width) as ex:
+        return all(list(ex.map(lambda f: f(), thunks)))
+
+
+def mc(ctx, what, items, xff, auth, timeout, coverage=False, chain=None, protos="MCBoth", nest=False, others=False):
+    r = ctx.tlc("Access_MC", cfg_text=cfg("Spec", items, xff, auth=auth, inv=True, chain=chain, protos=protos, nest=nest, others=others),
+                workers=ctx.pick(4, 8), timeout=timeout, coverage=coverage)
+    with _settle:
+        return _mc_settle(ctx, r, what, items, xff, auth, coverage)
+
+
+def _mc_settle(ctx, r, what, items, xff, auth, coverage):
     ctx.log("MC %s (<=%d items, XFF<=%d, auth=%s): %d generated, %d distinct, %.0fs" % (what, items, xff, auth, r.generated, r.distinct, r.wall))
     if not ctx.need_tlc_ok(r, "Access MC " + what):
         return False
@@ -111,9 +136,14 @@ def mc(ctx, what, items, xff, auth, timeout, coverage=False, chain=None, protos=
     return True
 
 
-def gen(ctx, what, sink, items, xff, auth, protos="MCBoth", timeout=600, chain=None, nest=False):
-    r = ctx.tlc("Access_MC", cfg_text=cfg("GenSpec", items, xff, auth=auth, protos=protos, chain=chain, nest=nest), workers=8,
-                json_sink=sink, timeout=timeout)
+def gen(ctx, what, sink, items, xff, auth, protos="MCBoth", timeout=600, chain=None, nest=False, others=False):
+    r = ctx.tlc("Access_MC", cfg_text=cfg("GenSpec", items, xff, auth=auth, protos=protos, chain=chain, nest=nest, others=others),
+                workers=ctx.pick(4, 8), json_sink=sink, timeout=timeout)
+    with _settle:
+        return _gen_settle(ctx, r, what, items, xff, auth)
+
+
+def _gen_settle(ctx, r, what, items, xff, auth):
     ctx.log("Gen %s (<=%d items, XFF<=%d, auth=%s): %d transitions, %.0fs" % (what, items, xff, auth, r.generated, r.wall))
     if not ctx.need_tlc_ok(r, "Access Gen " + what):
         return False
@@ -155,85 +185,140 @@ def run(ctx):
         "universe: rule items {A=v4 /8, B=v4 host, C=v6 /10, nested: An=narrower block inside A with A's network address, Ah=that address as host, Cn=narrower block inside C, ip:<v4>/33, ip:notanip, item without type, unknown type}, lists of <=%d items as allow / deny / both; peers and X-Forwarded-For elements {in A, in B, v4 outside, in C, v6 outside, zone-scoped v6 in C}, chains of <=2 judged elements surrounded by {0,1,2,15,16,17,40,200} filler hops in front and {0,1,20} behind, on one or several header lines; schemes {none, basic (configured), unconfigured name}; credentials {none, good, bad, malformed header}" % ctx.pick(2, 3),
         "for an undocumented configuration (unparsable item, allow and deny together) and for zone-scoped addresses the specification fixes only the upper bound (never admit what the well-formed part / the address part would not admit); denying more is permitted there",
         "the unparsable items name blocks containing no address of the universe, so a more lenient parser would be judged the same",
+        "other options of the same target {none, strip=, host=dst, tlsskipverify= (valid); redirect=3O1, redirect=200, proto=<unknown>, an unknown option (malformed)} combined with every rule list: they never take part in the decision; a target with a malformed one may be refused as a whole or deny more, it must not admit more",
         "authentication histories: <=3 login attempts over {good, changed password, wrong password, shifted user/password split, empty user, empty password, other user, crossed, none, malformed} with <=1 replacement of the htpasswd file (3 contents; modification time newer, older or equal to the loaded one - equal leaves either content permitted; a refresh missing after 250 intervals = 5 s counts as not applied) on a fresh scheme instance per history; the verdict must follow from the attempt and the content in force",
         "routes with two targets carrying their own rules (none / allow or deny of one block each) and instances up or down, 4 requests each so that the round-robin picker uses both: a request may reach only an instance whose own target's rules admit it; failing or trying another (checked) target after a failed connect are both permitted",
         "when access and authentication both fail, 403 and 401 are both accepted (the statement fixes no order)",
         "end to end runs use loopback sources (127.0.0.0/8, ::1 and, when the host has one, a link-local address for the zone-scoped peer); the IPv6-outside peer exists only at decision level and as an X-Forwarded-For element",
     ]
-    # 1. the gate and the list clauses on the model
+    # 1. the clauses on the models (the broken design must be caught) and 2. the cases - independent TLC runs,
+    #    several at a time
+    T = ctx.tmp
+    acc, gate, nestc, chainc, otherc, histc, histr, multic = (os.path.join(T, "c12.%s.cases" % n) for n in
+                                                              ("access", "gate", "nest", "chain", "other", "hist", "histreload", "multi"))
+    mcfg = cfg("MSpec", 1, 1, auth=False).replace("Items <- MCItems", "Items <- MCWFItems")
+
+    def multi_mc():
+        mm = ctx.tlc("AccessMulti_MC", cfg_text=mcfg.replace("CHECK_DEADLOCK FALSE", "INVARIANTS ServedByAdmittingTarget UntouchedUnlessServed MOutcomeSound\nCHECK_DEADLOCK FALSE"),
+                     workers=4, timeout=600)
+        with _settle:
+            ctx.log("MC multi-target routes: %d generated, %d distinct, %.0fs" % (mm.generated, mm.distinct, mm.wall))
+            if not ctx.need_tlc_ok(mm, "AccessMulti MC"):
+                return False
+            ctx.cover("mc-multi", states=mm.distinct, transitions=mm.generated)
+            return True
+
+    def multi_gen():
+        mg = ctx.tlc("AccessMulti_MC", cfg_text=mcfg.replace("MSpec", "MGenSpec"), workers=4, json_sink=multic, timeout=600)
+        with _settle:
+            if not ctx.need_tlc_ok(mg, "AccessMulti Gen"):
+                return False
+            ctx.cover("gen-multi", transitions=mg.generated)
+            return True
+
+    def hist_mc(memo):
+        def f():
+            h = ctx.tlc("AccessHist_MC", cfg_text=hist_cfg("Spec", "MCCredsFull", 3, ctx.pick(1, 2), memo=memo, inv=True), workers=4, timeout=600)
+            with _settle:
+                ctx.log("MC auth histories (memo=%s): %d generated, %d distinct, %.0fs" % (memo, h.generated, h.distinct, h.wall))
+                if not ctx.need_tlc_ok(h, "AccessHist MC memo=" + memo):
+                    return False
+                ctx.cover("mc-authhist-" + memo, states=h.distinct, transitions=h.generated)
+                return True
+        return f
+
+    def hist_bad():
+        bad = ctx.tlc("AccessHist_MC", cfg_text=hist_cfg("Spec", "MCCredsFull", 3, 1, memo="concat", inv=True), workers=4, timeout=300)
+        with _settle:
+            if bad.error or bad.timed_out or bad.violated != "HistoryIndependent":
+                ctx.inconclusive("the design that remembers verified credentials by user+password run together is NOT rejected by the model (violated=%s error=%s)"
+                                 % (bad.violated, bad.error))
+                return False
+            ctx.log("MC auth histories, broken design (memo keyed by the concatenation): violates HistoryIndependent after %d states, as required" % bad.generated)
+            return True
+
+    def hist_gen(sink, creds, reloads, what):
+        def f():
+            r = ctx.tlc("AccessHist_MC", cfg_text=hist_cfg("GenSpec", creds, 3, reloads), workers=4, json_sink=sink, timeout=600)
+            with _settle:
+                if not ctx.need_tlc_ok(r, "AccessHist Gen " + what):
+                    return False
+                ctx.log("Gen auth histories (%s): %d transitions" % (what, r.generated - 1))
+                ctx.cover("gen-authhist-" + what, transitions=r.generated)
+                return True
+        return f
+
+    steps = []
     if ctx.thorough:
         # coverage statistics (vacuity guard: every action taken) on the small configuration only - they slow TLC a lot
-        if not mc(ctx, "gate-auth-coverage", 1, 1, True, 600, coverage=True):
-            return
-        for what, items, xff, auth in (("gate-3items", 3, 1, True), ("gate-3items-xff2", 3, 2, False)):
-            if not mc(ctx, what, items, xff, auth, 900):
-                return
+        steps += [lambda: mc(ctx, "gate-auth-coverage", 1, 1, True, 600, coverage=True),
+                  lambda: mc(ctx, "gate-3items", 3, 1, True, 900), lambda: mc(ctx, "gate-3items-xff2", 3, 2, False, 900)]
     else:
-        if not mc(ctx, "gate-auth", 1, 1, True, 200):
-            return
-        if not mc(ctx, "gate-lists", 2, 1, False, 200):
-            return
-    # nested / overlapping blocks (narrow inside wide with the same network address, a host and its network), both orders
-    if not mc(ctx, "nested-blocks", ctx.pick(2, 3), 1, False, ctx.pick(200, 900), nest=True):
-        return
-    # routes with several targets carrying different rules: served only by a target whose own rules admit
-    mm = ctx.tlc("AccessMulti_MC", cfg_text=cfg("MSpec", 1, 1, auth=False).replace("Items <- MCItems", "Items <- MCWFItems")
-                 .replace("CHECK_DEADLOCK FALSE", "INVARIANTS ServedByAdmittingTarget UntouchedUnlessServed MOutcomeSound\nCHECK_DEADLOCK FALSE"),
-                 workers=8, timeout=600)
-    ctx.log("MC multi-target routes: %d generated, %d distinct, %.0fs" % (mm.generated, mm.distinct, mm.wall))
-    if not ctx.need_tlc_ok(mm, "AccessMulti MC"):
-        return
-    ctx.cover("mc-multi", states=mm.distinct, transitions=mm.generated)
-    # long X-Forwarded-For chains: fillers around the judged elements, lengths at boundary values
-    if not mc(ctx, "chains", ctx.pick(1, 2), 1, False, ctx.pick(200, 900), chain=ctx.pick(CHAIN_Q, CHAIN_T), protos="MCHttp"):
-        return
-    # authentication over histories: the design and the pair-keyed memo hold, the concatenation-keyed memo must not
-    for memo in ctx.pick(("none",), ("none", "pair")):
-        h = ctx.tlc("AccessHist_MC", cfg_text=hist_cfg("Spec", "MCCredsFull", 3, ctx.pick(1, 2), memo=memo, inv=True), workers=4, timeout=600)
-        ctx.log("MC auth histories (memo=%s): %d generated, %d distinct, %.0fs" % (memo, h.generated, h.distinct, h.wall))
-        if not ctx.need_tlc_ok(h, "AccessHist MC memo=" + memo):
-            return
-        ctx.cover("mc-authhist-" + memo, states=h.distinct, transitions=h.generated)
-    bad = ctx.tlc("AccessHist_MC", cfg_text=hist_cfg("Spec", "MCCredsFull", 3, 1, memo="concat", inv=True), workers=4, timeout=300)
-    if bad.error or bad.timed_out or bad.violated != "HistoryIndependent":
-        ctx.inconclusive("the design that remembers verified credentials by user+password run together is NOT rejected by the model (violated=%s error=%s)"
-                         % (bad.violated, bad.error))
-        return
-    ctx.log("MC auth histories, broken design (memo keyed by the concatenation): violates HistoryIndependent after %d states, as required" % bad.generated)
-
-    # 2. cases: (a) every configuration x peer x chain without authentication,
-    #           (b) the product with schemes and credentials on the smaller configuration universe
-    acc = os.path.join(ctx.tmp, "c12.access.cases")
-    if not gen(ctx, "access", acc, ctx.pick(2, 3), 2, False):
-        return
-    gate = os.path.join(ctx.tmp, "c12.gate.cases")
-    if not gen(ctx, "gate", gate, ctx.pick(1, 2), 1, True, protos="MCHttp"):
+        steps += [lambda: mc(ctx, "gate-auth", 1, 1, True, 200), lambda: mc(ctx, "gate-lists", 2, 1, False, 200)]
+    steps += [
+        # nested / overlapping blocks (narrow inside wide with the same network address, a host and its network), both orders
+        lambda: mc(ctx, "nested-blocks", ctx.pick(2, 3), 1, False, ctx.pick(200, 900), nest=True),
+        # other options of the same target, valid and malformed: never part of the decision
+        lambda: mc(ctx, "other-options", ctx.pick(1, 2), 1, False, ctx.pick(200, 900), others=True),
+        # routes with several targets carrying different rules: served only by a target whose own rules admit
+        multi_mc,
+        # long X-Forwarded-For chains: fillers around the judged elements, lengths at boundary values
+        lambda: mc(ctx, "chains", ctx.pick(1, 2), 1, False, ctx.pick(200, 900), chain=ctx.pick(CHAIN_Q, CHAIN_T), protos="MCHttp"),
+        # authentication over histories: the design and the pair-keyed memo hold, the concatenation-keyed memo must not
+        hist_mc("none"), hist_bad,
+        # cases: every configuration x peer x chain without authentication; the product with schemes and
+        # credentials on the smaller configuration universe; the special universes
+        lambda: gen(ctx, "access", acc, ctx.pick(2, 3), 2, False),
+        lambda: gen(ctx, "gate", gate, ctx.pick(1, 2), 1, True, protos="MCHttp"),
+        lambda: gen(ctx, "nested-blocks", nestc, ctx.pick(2, 3), ctx.pick(1, 2), False, nest=True),
+        lambda: gen(ctx, "other-options", otherc, ctx.pick(1, 2), 1, False, others=True),
+        lambda: gen(ctx, "chains", chainc, ctx.pick(1, 2), 1, False, protos="MCHttp", chain=ctx.pick(CHAIN_Q, CHAIN_T)),
+        hist_gen(histc, "MCCredsFull", 0, "no-reload"),
+        hist_gen(histr, ctx.pick("MCCredsSmall", "MCCredsFull"), 1, "one-reload"),
+        multi_gen,
+    ]
+    if ctx.thorough:
+        steps.append(hist_mc("pair"))
+    if not par(ctx, steps, width=ctx.pick(4, 3)):
         return
 
-    nestc = os.path.join(ctx.tmp, "c12.nest.cases")
-    if not gen(ctx, "nested-blocks", nestc, ctx.pick(2, 3), ctx.pick(1, 2), False, nest=True):
-        return
-    chainc = os.path.join(ctx.tmp, "c12.chain.cases")
-    if not gen(ctx, "chains", chainc, ctx.pick(1, 2), 1, False, protos="MCHttp", chain=ctx.pick(CHAIN_Q, CHAIN_T)):
-        return
-    histc = os.path.join(ctx.tmp, "c12.hist.cases")
-    hg = ctx.tlc("AccessHist_MC", cfg_text=hist_cfg("GenSpec", "MCCredsFull", 3, 0), workers=4, json_sink=histc, timeout=600)
-    if not ctx.need_tlc_ok(hg, "AccessHist Gen"):
-        return
-    histr = os.path.join(ctx.tmp, "c12.histreload.cases")
-    hr = ctx.tlc("AccessHist_MC", cfg_text=hist_cfg("GenSpec", ctx.pick("MCCredsSmall", "MCCredsFull"), 3, 1), workers=4, json_sink=histr, timeout=600)
-    if not ctx.need_tlc_ok(hr, "AccessHist Gen (reload)"):
-        return
-    ctx.log("Gen auth histories: %d without reload, %d transitions with one reload" % (hg.generated - 1, hr.generated - 1))
-    ctx.cover("gen-authhist", transitions=hg.generated + hr.generated)
-
-    # 3. replay: decisions (every case; of the long chains a seeded share in the thorough tier)
+    # 3. the case files of all replays, then the replays - separate `go test` processes, several at a time
     allc = os.path.join(ctx.tmp, "c12.all.cases")
     sample(ctx, acc, allc, 1.0)
     sample(ctx, gate, allc, 1.0)
     sample(ctx, chainc, allc, ctx.pick(1.0, 0.10), always=clean_rules)
     sample(ctx, nestc, allc, 1.0)
-    r = run_sub(ctx, "route", allc, "C12 decisions")
+    sample(ctx, otherc, allc, ctx.pick(1.0, 0.3), always=clean_rules)
+    httpc = os.path.join(ctx.tmp, "c12.http.cases")
+    n1 = sample(ctx, gate, httpc, ctx.pick(0.5, 1.0), proto="http")
+    n2 = sample(ctx, acc, httpc, ctx.pick(0.08, 0.06), proto="http", always=clean_rules)
+    n2 += sample(ctx, chainc, httpc, ctx.pick(0.10, 0.03), proto="http")
+    n2 += sample(ctx, nestc, httpc, ctx.pick(0.5, 0.15), proto="http")
+    n2 += sample(ctx, otherc, httpc, ctx.pick(0.5, 0.05), proto="http", always=clean_rules)
+    tcpc = os.path.join(ctx.tmp, "c12.tcp.cases")
+    sample(ctx, acc, tcpc, 1.0, proto="tcp")
+    sample(ctx, nestc, tcpc, 1.0, proto="tcp")
+    sample(ctx, otherc, tcpc, ctx.pick(1.0, 0.3), proto="tcp", always=clean_rules)
+    hall = os.path.join(ctx.tmp, "c12.hist.all")
+    sample(ctx, histc, hall, 1.0)
+    nrel = sample(ctx, histr, hall, ctx.pick(0.12, 0.08), always=None, pred=lambda l: '"reload"' in l and l.count('"attempt"') == 3)
+    mh = os.path.join(ctx.tmp, "c12.multi.http")
+    sample(ctx, multic, mh, ctx.pick(0.3, 1.0), proto="http")
+    mt = os.path.join(ctx.tmp, "c12.multi.tcp")
+    sample(ctx, multic, mt, ctx.pick(0.5, 1.0), proto="tcp")
+    from concurrent.futures import ThreadPoolExecutor
+    ex = ThreadPoolExecutor(max_workers=ctx.pick(3, 3))
+    FUT = {}
+    FUT["route"] = ex.submit(run_sub, ctx, "route", allc, "C12 decisions")
+    FUT["http"] = ex.submit(run_sub, ctx, "http", httpc, "C12 end to end HTTP", timeout=ctx.pick(300, 800))
+    FUT["tcp"] = ex.submit(run_sub, ctx, "tcp", tcpc, "C12 end to end TCP", timeout=ctx.pick(300, 800))
+    FUT["authhist"] = ex.submit(run_sub, ctx, "authhist", hall, "C12 authentication histories", timeout=ctx.pick(300, 800))
+    FUT["multihttp"] = ex.submit(run_sub, ctx, "multihttp", mh, "C12 multi-target HTTP", timeout=ctx.pick(300, 800))
+    FUT["multitcp"] = ex.submit(run_sub, ctx, "multitcp", mt, "C12 multi-target TCP", timeout=ctx.pick(300, 800))
+    ex.shutdown(wait=False)
+
+    # 3. replay: decisions (every case; of the long chains a seeded share in the thorough tier)
+    r = FUT["route"].result()
     if r is None:
         return
     s = r.summary
@@ -245,12 +330,7 @@ def run(ctx):
     ctx.take_failures(r, "route")
 
     # 4. replay: end to end HTTP (all gate cases of the small universe + a seeded share of the access cases)
-    httpc = os.path.join(ctx.tmp, "c12.http.cases")
-    n1 = sample(ctx, gate, httpc, ctx.pick(0.5, 1.0), proto="http")
-    n2 = sample(ctx, acc, httpc, ctx.pick(0.08, 0.06), proto="http", always=clean_rules)
-    n2 += sample(ctx, chainc, httpc, ctx.pick(0.10, 0.03), proto="http")
-    n2 += sample(ctx, nestc, httpc, ctx.pick(0.5, 0.15), proto="http")
-    r = run_sub(ctx, "http", httpc, "C12 end to end HTTP", timeout=ctx.pick(300, 800))
+    r = FUT["http"].result()
     if r is None:
         return
     s = r.summary
@@ -263,10 +343,7 @@ def run(ctx):
     ctx.take_failures(r, "http")
 
     # 5. replay: end to end TCP (every TCP case, three proxy kinds)
-    tcpc = os.path.join(ctx.tmp, "c12.tcp.cases")
-    sample(ctx, acc, tcpc, 1.0, proto="tcp")
-    sample(ctx, nestc, tcpc, 1.0, proto="tcp")
-    r = run_sub(ctx, "tcp", tcpc, "C12 end to end TCP", timeout=ctx.pick(300, 800))
+    r = FUT["tcp"].result()
     if r is None:
         return
     s = r.summary
@@ -279,10 +356,7 @@ def run(ctx):
     ctx.take_failures(r, "tcp")
 
     # 6. replay: authentication histories end to end (every history without reload; with a reload: those of full length)
-    hall = os.path.join(ctx.tmp, "c12.hist.all")
-    sample(ctx, histc, hall, 1.0)
-    nrel = sample(ctx, histr, hall, ctx.pick(0.12, 0.08), always=None, pred=lambda l: '"reload"' in l and l.count('"attempt"') == 3)
-    r = run_sub(ctx, "authhist", hall, "C12 authentication histories", timeout=ctx.pick(300, 800))
+    r = FUT["authhist"].result()
     if r is None:
         return
     s = r.summary
@@ -295,15 +369,7 @@ def run(ctx):
     ctx.take_failures(r, "authhist")
 
     # 7. routes with several targets carrying different rules, instances up / down
-    multic = os.path.join(ctx.tmp, "c12.multi.cases")
-    mbase = cfg("MGenSpec", 1, 1, auth=False).replace("Items <- MCItems", "Items <- MCWFItems")
-    mg = ctx.tlc("AccessMulti_MC", cfg_text=mbase, workers=8, json_sink=multic, timeout=600)
-    if not ctx.need_tlc_ok(mg, "AccessMulti Gen"):
-        return
-    ctx.cover("gen-multi", transitions=mg.generated)
-    mh = os.path.join(ctx.tmp, "c12.multi.http")
-    sample(ctx, multic, mh, ctx.pick(0.3, 1.0), proto="http")
-    r = run_sub(ctx, "multihttp", mh, "C12 multi-target HTTP", timeout=ctx.pick(300, 800))
+    r = FUT["multihttp"].result()
     if r is None:
         return
     s = r.summary
@@ -313,9 +379,7 @@ def run(ctx):
         ctx.inconclusive("multi-target HTTP run is vacuous: %s" % json.dumps(s)[:400])
     ctx.cover("multihttp", traces_validated_against_impl=s["ran"], evaluations=s["requests"], distinct_nontrivial=s["distinct_nontrivial"], samples=s.get("samples") or [])
     ctx.take_failures(r, "multihttp")
-    mt = os.path.join(ctx.tmp, "c12.multi.tcp")
-    sample(ctx, multic, mt, ctx.pick(0.5, 1.0), proto="tcp")
-    r = run_sub(ctx, "multitcp", mt, "C12 multi-target TCP", timeout=ctx.pick(300, 800))
+    r = FUT["multitcp"].result()
     if r is None:
         return
     s = r.summary
